@@ -12,6 +12,7 @@ import (
 	"os/exec"
 	"strings"
 	"sync"
+	"sync/atomic"
 	"time"
 
 	"verif/cqlclient"
@@ -409,6 +410,14 @@ func hostileBytes(class string, rnd *rand.Rand, v primitive.ProtocolVersion) (pr
 	case "hostile_startup":
 		opts := map[string]string{"CQL_VERSION": "3.0.0", "COMPRESSION": strings.Repeat("z", 1+rnd.Intn(70000)%65000), "": "", "\xff": "\xfe"}
 		return "none", "", encodeFrame(frame.NewFrame(v, 1, &message.Startup{Options: opts}))
+	case "nonreader_flood":
+		_ = pick(1)
+		pre = "startup"
+		var b bytes.Buffer
+		for q := 0; q < 2500; q++ {
+			b.Write(validQuery(v, int16(1+q), fmt.Sprintf("SELECT * FROM ks.t WHERE k = 'tokflood%d;'", q)))
+		}
+		payload = b.Bytes()
 	case "hostile_auth":
 		return "startup", "", encodeFrame(frame.NewFrame(v, 1, &message.AuthResponse{Token: []byte("x")}))
 	}
@@ -642,6 +651,37 @@ func init() {
 						}
 						_, _ = nc.Write(encodeFrame(frame.NewFrame(clientV, 0, st)))
 						_, _ = observe(nc, 2*time.Second)
+					}
+					if class == "nonreader_flood" {
+						// valid frames only, from a peer that never reads: 2500 queries whose answers (about 20 KiB each) pile up
+						// in the socket buffers and in the proxy's write queue for this client; then it hangs up
+						atomic.StoreInt64(&c.BigEvery, 1)
+						go func() { _, _ = nc.Write(payload) }()
+						time.Sleep(1500 * time.Millisecond)
+						nc.Close()
+						atomic.StoreInt64(&c.BigEvery, 0)
+						res.Outcomes["closed"]++
+						time.Sleep(100 * time.Millisecond)
+						if !p.alive() {
+							died(class, hs.Seq, nil)
+							continue
+						}
+						ncan++
+						res.Canaries++
+						if err := canary(p.addr, clientV, ncan); err != nil {
+							if !p.alive() {
+								died(class, hs.Seq, nil)
+								continue
+							}
+							res.Findings = append(res.Findings, hostileFinding{Class: class, Seq: hs.Seq, Kind: "canary-failed", Detail: err.Error()})
+							p.stop()
+							res.Restarts++
+							var e error
+							if p, e = startProxy(*bin, c, ips[0], *maxv); e != nil {
+								return e
+							}
+						}
+						continue
 					}
 					_, _ = nc.Write(payload)
 					// classes for which silence is an allowed outcome are given a short wait; for the others silence
